@@ -37,7 +37,7 @@ def shaped(g):
 def gen_cases(ctx):
     g = mapgen.MapGen(ctx.rng)
     cases = []
-    for i, (feat, sp) in enumerate(shaped(g)):
+    for i, (feat, sp) in enumerate([("witness-" + f, w) for f, w in mapgen.WITNESSES[PROP]()] + shaped(g)):
         c = mapgen.make_case("s%d" % i, sp)
         c["feat"] = feat
         cases.append(c)
